@@ -888,7 +888,7 @@ func check(args []string) int {
 			"determinism":          det,
 			"budget_exhausted":     budget,
 			"known_findings":       knownLines,
-			"instrumenter":         map[string]int{"files": ist.Files, "lock_sites": ist.LockSites, "yields": ist.Yields, "go_stmts": ist.GoStmts, "map_rewrites": ist.MapRewrites},
+			"instrumenter":         map[string]any{"files": ist.Files, "lock_sites": ist.LockSites, "yields": ist.Yields, "go_stmts": ist.GoStmts, "map_rewrites": ist.MapRewrites, "selects_decided_by_simulator": ist.Selects, "left_to_runtime": ist.Audit},
 			"components_real":      "serve loop, handlers, krpc+bencode codec, routing table, token server, transactions, traversal, k-nearest, containers, bep44 wrapper+memory store, in-memory peer store, announce, bootstrap, getput, x/time/rate, chansync, anacrolix/sync",
 			"components_simulated": "UDP socket (SimConn), remote nodes (scripted sim peers), wall clock (testing/synctest), crypto/rand stream, starting nodes, logger (discarded), Go scheduler decisions at instrumented points (yield mode), bucket map iteration order",
 			"tree":                 treeID(),
@@ -896,7 +896,7 @@ func check(args []string) int {
 		},
 		"assumptions": []string{
 			"sampling, not proof: a clean batch is evidence only",
-			"data-race freedom between yield points; multi-ready select choices and same-ID tie-breaks in the k-nearest set are not controlled (oracles are insensitive to them)",
+			"data-race freedom between yield points; selects over event accessors (Done/Signaled/Stopped/Stalled/After/...) are decided by the simulator (priority-select rewrite) and the k-nearest tie-break hash is seamed; any select the rewriter had to leave to the Go runtime is listed under coverage.instrumenter.left_to_runtime",
 			"the rewriter's syntactic patterns cover every lock site of the instrumented packages (audited on every build: lock_sites == rewritten)",
 		},
 	}
